@@ -61,6 +61,13 @@ CLAIMED["C06"] = dict(
     ref="DESIGN.md 4/C06",
 )
 
+CLAIMED["C21"] = dict(
+    technique="class-table agreement of the seven primitives across four classes and the two io classes; effect (who-may-write) analysis of the context dictionary; must-flow pairing inside the framework; typestate over the VC-2 description program (sub-context depth, bounded-block alternation, per-instance target reuse vs declare_list with predicate-conditional declarations)",
+    text="Round-trip equality for arbitrary programs is behaviour and not decided. Decided on all paths: primitives are exhaustive and paired read_X/write_X with sizes passed through; only four methods write the context, deserialisation cannot overwrite, serialisation reads only via the checked accessor; enter/leave and begin/end are paired in the framework and balanced in the VC-2 program; repeated targets are declared lists; context-type replacement keeps the tree linked.",
+    note="Trusted: CPython ast; MRO puts MonitoredMixin first. Value-level inverse-ness of io primitives is C20.",
+    ref="DESIGN.md 4/C21",
+)
+
 NOT_APPLICABLE = {
     "C12": "arithmetic over unbounded integers (quantisation error bounds, monotonicity of a rational formula): no structural clause; needs algebra/solver or execution",
     "C13": "partition/telescoping identities of floor arithmetic on runtime sizes; the functions are spec-pinned arithmetic with nothing to decide from code shape",
